@@ -75,10 +75,22 @@ def enumerate_mutants(path):
     lines = open(os.path.join(REPO, path)).read().split("\n")
     res = []
     in_block = False
+    depth = 0          # preprocessor nesting
+    ut_at = None       # depth at which a unit-test region (#ifndef NO_UNIT_TESTS) was entered: not built by the checks
     for ln, line in enumerate(lines):
         code, in_block = mask(line, in_block)
         s = code.strip()
-        if not s or s.startswith("#"):
+        if s.startswith("#"):
+            if re.match(r"#\s*if", s):
+                depth += 1
+                if ut_at is None and "NO_UNIT_TESTS" in s:
+                    ut_at = depth
+            elif re.match(r"#\s*endif", s):
+                if ut_at == depth:
+                    ut_at = None
+                depth -= 1
+            continue
+        if not s or ut_at is not None or s.endswith("\\") or re.match(r"^(\}\s*while\s*\(0\))", s):
             continue
         if re.match(r"^\s*(LOG|LOGE|TRACE|ERR|EXPECT\s*\(\s*0)\b", code):
             continue
